@@ -99,6 +99,10 @@ def run(ctx):
     ctx.ob("S/CachedSubstitutionMapper/dispatch", ok, csm.loc(),
            "dispatch is CachedMapper's" if ok else
            "CachedSubstitutionMapper does not dispatch through CachedMapper")
+    # ... so "the plain and the memoizing mapper give equal results" rests on
+    # the rule instances about CachedMapper's key (C05)
+    from .c05 import _cache_key
+    _cache_key(ctx, model, scope=[csm])
     # its __init__ initialises both bases
     from ..rules import init_effects
     eff = init_effects(model, csm)
